@@ -19,26 +19,27 @@
 EXTENDS Naturals
 
 Effective(set, scope) ==
-  IF scope = "sibling" THEN [certs |-> FALSE, hosts |-> FALSE, root |-> FALSE]
-  ELSE IF scope = "override" THEN [certs |-> FALSE, hosts |-> FALSE, root |-> set.root]   \* the request switches both flags off again
-  ELSE IF scope = "override_certs" THEN [certs |-> FALSE, hosts |-> set.hosts, root |-> set.root] \* only that flag is switched off again
+  IF scope = "sibling" THEN [certs |-> FALSE, hosts |-> FALSE, root |-> FALSE, rootIsLeaf |-> FALSE]
+  ELSE IF scope = "override" THEN [set EXCEPT !.certs = FALSE, !.hosts = FALSE]   \* the request switches both flags off again
+  ELSE IF scope = "override_certs" THEN [set EXCEPT !.certs = FALSE] \* only that flag is switched off again
   ELSE set
 
 Accept(chain, expired, nameOK, set, scope) ==
   LET e == Effective(set, scope)
-      chainOK == chain = "ca" /\ e.root
+      \* trust comes from the private CA added as a root, or from the server's own self-signed certificate added as a root
+      chainOK == (chain = "ca" /\ e.root) \/ (chain = "self" /\ e.rootIsLeaf)
   IN /\ (chainOK \/ e.certs)
      /\ (~expired \/ e.certs)
      /\ (nameOK \/ e.hosts \/ e.certs)
 
 \* meta-properties of the table (checked by TLC over all rows)
 DefaultsAuthenticate == \A c \in {"ca", "self", "unknown"}, x \in BOOLEAN, n \in BOOLEAN :
-   ~Accept(c, x, n, [certs |-> FALSE, hosts |-> FALSE, root |-> FALSE], "request")
+   ~Accept(c, x, n, [certs |-> FALSE, hosts |-> FALSE, root |-> FALSE, rootIsLeaf |-> FALSE], "request")
 HostnameWaiverWaivesOnlyTheName == \A c \in {"ca", "self", "unknown"}, x \in BOOLEAN, r \in BOOLEAN :
-   Accept(c, x, FALSE, [certs |-> FALSE, hosts |-> TRUE, root |-> r], "request")
-     <=> Accept(c, x, TRUE, [certs |-> FALSE, hosts |-> FALSE, root |-> r], "request")
+   Accept(c, x, FALSE, [certs |-> FALSE, hosts |-> TRUE, root |-> r, rootIsLeaf |-> FALSE], "request")
+     <=> Accept(c, x, TRUE, [certs |-> FALSE, hosts |-> FALSE, root |-> r, rootIsLeaf |-> FALSE], "request")
 CertWaiverWaivesEverything == \A c \in {"ca", "self", "unknown"}, x \in BOOLEAN, n \in BOOLEAN, h \in BOOLEAN, r \in BOOLEAN :
-   Accept(c, x, n, [certs |-> TRUE, hosts |-> h, root |-> r], "request")
+   Accept(c, x, n, [certs |-> TRUE, hosts |-> h, root |-> r, rootIsLeaf |-> FALSE], "request")
 NothingLeaksFromSiblings == \A c \in {"ca", "self", "unknown"}, x \in BOOLEAN, n \in BOOLEAN, cc \in BOOLEAN, h \in BOOLEAN, r \in BOOLEAN :
-   ~Accept(c, x, n, [certs |-> cc, hosts |-> h, root |-> r], "sibling")
+   ~Accept(c, x, n, [certs |-> cc, hosts |-> h, root |-> r, rootIsLeaf |-> FALSE], "sibling")
 =============================================================================
